@@ -62,10 +62,15 @@ CHECKS = {
           'in the laminate stiffnesses; PanelAssembly.get_k0_conn is executed for the five connection kinds in both assembly orders: kernel dispatch, penalty constants, '
           'interface arguments, block placement, and the obligation that the p1-p2 block survives the symmetrisation; TStiff2D.__init__/_rebuild/calc_k0 are executed '
           'symbolically: placement of base and flange, the three skin-base blocks (sub-interval, offset distance, edge flags, sizes) and the base-flange blocks with '
-          'the interface lines taken in each panel\'s own coordinate.'),
-    design_ref='DESIGN.md section 4 (C12)',
-    note=('the connection KERNELS (kC*.pyx, stiffener models) are not yet proved against the mismatch-energy Hessian: only their call sites are under contract; '
-          'BladeStiff1D/2D not yet under contract; 6 known findings (coupling block lost when p1 comes after p2)'),
+          'the interface lines taken in each panel\'s own coordinate.  The fifteen connection kernels fkC{SSxcte,SSycte,BFxcte,BFycte,SB}{11,12,22} are '
+          'extracted from the .pyx text and executed symbolically (symbolic series indices, orders, edge flags, sizes, interface positions, kt, kr > 0): every '
+          'emitted value equals the Hessian entry of kt/2 Int|jump|^2 + kr/2 Int(rotation jump)^2 written with the two panels\' own series on the interface, the three '
+          'blocks of a kind come from ONE such quadratic form (hence positive semi-definite, zero without jump, linear in kt, kr), 11/22 blocks emit the whole upper '
+          'triangle, 12 blocks the whole block, array capacity and divisions are discharged.'),
+    design_ref='DESIGN.md section 4 (C12), 10.7',
+    note=('interface geometry is a stated precondition of the kernels (the two panels share the interface length; the kernels integrate over panel 1\'s '
+          'interface); the orientation of the flange frame / side of the offset is existential (one sign for all blocks of a kind), the property fixes neither; '
+          'the face-to-face kind has no rotation penalty (its kernel takes no kr); 6 known findings (coupling block lost when p1 comes after p2)'),
     technique='contracts + symbolic execution of the Python ast; exact normal form'),
  'C16': dict(
     category='proof',
@@ -147,11 +152,18 @@ CHECKS = {
           'executed symbolically from the real source (panels built by the real Panel constructor, kernels and stiffener matrices through their contracts): '
           'ranges are consecutive and disjoint, size equals the sum of the component sizes, every component is evaluated with the global size at its own '
           'offset (2-D stiffeners at the skin block plus the sizes of the 2-D stiffeners before them), the result is the (symmetrised) sum of exactly those '
-          'terms plus the connection matrix, each point force contributes F.g of its own panel at that panel\'s range with incrementable forces scaled.'),
-    design_ref='DESIGN.md section 4 (C13)',
-    note=('bounded in the NUMBER of components (1..3 panels, 0..2 stiffeners of each kind, 0..2 forces) with all sizes/positions/series orders symbolic; '
-          'component matrices through kernel contracts (C02-C04, C12); stiffener internals (BladeStiff*/TStiff2D.calc_*) and the stiffener kernels are not yet '
-          'under contract; skin-partition additivity rests on the sub-interval additivity of the table contracts (C10)'),
+          'terms plus the connection matrix, each point force contributes F.g of its own panel at that panel\'s range with incrementable forces scaled.  '
+          'The nine stiffener kernels (bladestiff1d fk0f/fkG0f/fkMf, bladestiff2d fkCss/fkCsf/fkCff, tstiff2d fkCppy1y2/fkCpby1y2/fkCbbpby1y2) are extracted from '
+          'the .pyx text and proved, entry by entry for symbolic indices, to be the Hessian of one quadratic functional each (beam energy of the flange on the line '
+          'y = ys; kinetic energy of the flange over its height; mismatch energy skin line <-> flange edge; mismatch energy skin strip <-> base surface with the '
+          'sub-interval and mapped-coordinate table contracts); BladeStiff1D and BladeStiff2D (__init__, _rebuild, calc_k0/kG0/kM) are executed symbolically: '
+          'arguments, beam constants, offsets, placement, penalty constants; positive semi-definiteness of the added stiffness and mass is the z3 / normal-form '
+          'obligation that the weight matrix of each functional is positive semi-definite for every value the class can pass.'),
+    design_ref='DESIGN.md section 4 (C13), 10.7',
+    note=('bounded in the NUMBER of components (1..3 panels, 0..2 stiffeners of each kind, 0..2 forces; flange laminates of 1..3 plies in BladeStiff1D) with all '
+          'sizes/positions/series orders symbolic; component matrices through kernel contracts (C02-C04, C12); TStiff2D.calc_k0 is under contract in C12, its '
+          'calc_kG0/calc_kM are not; skin-partition additivity rests on the sub-interval additivity of the table contracts (C10); 2 known findings (1-D blade '
+          'flange stiffness indefinite for flange laminates with extension-shear coupling)'),
     technique='contracts + symbolic execution of the Python ast; exact normal form for offsets; kernel contracts'),
  'C05': dict(
     category='proof',
